@@ -611,8 +611,19 @@ func (e *Engine) registerConcIntrinsics() {
 		*slot = g
 		return Tuple{Ptr(slot), Iface{T: ctxT(r), V: c}}
 	}
+	// egOf: the group behind the pointer; a zero-value errgroup.Group (no context: &errgroup.Group{} or a variable)
+	// becomes a group whose context nobody sees
+	egOf := func(r *Run, p Value) *egObj {
+		slot := p.(Ptr)
+		if g, ok := (*slot).(*egObj); ok {
+			return g
+		}
+		g := &egObj{ctx: &ctxObj{r: r, done: &ChanV{}}}
+		*slot = g
+		return g
+	}
 	in["(*"+EG+".Group).Go"] = func(r *Run, fr *frame, a []Value) Value {
-		g := (*a[0].(Ptr)).(*egObj)
+		g := egOf(r, a[0])
 		f := a[1]
 		g.n++
 		body := &hostFunc{name: "errgroup.worker", f: func(r *Run, fr2 *frame, _ []Value) Value {
@@ -635,7 +646,7 @@ func (e *Engine) registerConcIntrinsics() {
 		return nil
 	}
 	in["(*"+EG+".Group).Wait"] = func(r *Run, fr *frame, a []Value) Value {
-		g := (*a[0].(Ptr)).(*egObj)
+		g := egOf(r, a[0])
 		for g.n > 0 {
 			g.waiters = append(g.waiters, r.conc().cur)
 			r.block("errgroup.Wait")
